@@ -27,6 +27,7 @@ import DimModel.Driver.ExtGrouped
 import DimModel.Driver.ExtHeap
 import DimModel.Driver.ExtOpVals
 import DimModel.Driver.ExtTakeNd
+import DimModel.Driver.ExtHeapFlat
 import DimModel.Lib.DatasetCtor
 import DimModel.Driver.ExtC14Ops
 import DimModel.Driver.ExtC14Ops4
@@ -536,6 +537,7 @@ def handle (op : String) (req : Json) : P (List (String × Json)) := do
               | .ok (_, s) => encDS s (.ok ())
               | .error e => Json.mkObj [("err", encErr e)])]
   | "redx" => handleRedX req
+  | "heapflat" => handleHeapFlat heapOp req
   | "opx" => handleOpX req
   | "heapx_history" => handleHeapX heapOp encArrObs req
   | "grouped_cache" => match handleGrouped op req with | some r => r | none => throw s!"unknown op {op}"
